@@ -9,8 +9,9 @@ SPEC = {
                           "apply_carries_data", "accepts_only_under_agency", "initial_state_eq_spec"],
     "translators": [translate_fsm.translate_n2],
     "streams": [{"name": "fsm2", "quick": 400, "thorough": 20000}],
-    "rule": "every case is `init`/`default` + messages applied by the real State::apply; the first 174 cases are the complete "
-            "(state class x message class) product of the 8 protocols, the rest are random histories (1..64 messages, 3/4 biased to "
+    "rule": "every case is `init`/`default` + messages applied by the real State::apply; the first 522 cases are the complete "
+            "(state class x message class) product of the 8 protocols, three times each with payload tokens drawn from the boundary set of each "
+            "field's width (u8/u16/u32/u48/u64: 255/256, 65535/65536, 2^32-1/2^32, 2^63, u64::MAX ...; every value is built from and rendered back to one token injectively), the rest are random histories (1..64 messages, 3/4 biased to "
             "permitted ones) from Default::default(); distinct = sha1 of the op text; non-trivial = the history contains at least one "
             "accepted and one refused message",
     "trusted_base": [
